@@ -559,4 +559,62 @@ def runS (s : SetOp) : List SCall → Except Str SetOp
 /-- `QueryBuilder.union(other)` etc.: a new set operation whose base is the receiver -/
 def mkSetOp (s : St) (name : Str) (other : Query) : SetOp := .mk s.r.toQ [(name, other)] [] none none none
 
+
+/-! ## term-level builders: `Term.as_`, `Case.when / else_`, `AggregateFunction.filter`, `AnalyticFunction.over / orderby`,
+`WindowFrameAnalyticFunction.rows / range`, `ignore_nulls`, `DistinctOptionFunction.distinct` -/
+
+inductive TCall where
+  | as_ (alias : Option Str)
+  | when (crit : Term) (val : Arg)
+  | else_ (val : Arg)
+  | filter (cs : List Term)
+  | over (terms : List Term)
+  | orderby (terms : List Term) (order : Option Ord)
+  | frame (kind : Str) (lo : Edge) (hi : Option Edge)
+  | ignoreNulls
+  | distinct
+
+def Term.withAlias (a : Option Str) : Term → Term
+  | .field n _ t => .field n a t
+  | .val v _ => .val v a
+  | .wrapped t _ => .wrapped t a
+  | .lit s _ => .lit s a
+  | .neg t _ => .neg t a
+  | .arith op l r _ => .arith op l r a
+  | .basic c l r _ => .basic c l r a
+  | .complex op l r _ => .complex op l r a
+  | .not t _ => .not t a
+  | .isin t c n _ => .isin t c n a
+  | .between t lo hi _ => .between t lo hi a
+  | .period t lo hi _ => .period t lo hi a
+  | .isnull t _ => .isnull t a
+  | .notnull t _ => .notnull t a
+  | .bitand t v _ => .bitand t v a
+  | .all t _ => .all t a
+  | .tuple vs _ => .tuple vs a
+  | .array vs _ => .array vs a
+  | .case ws e _ => .case ws e a
+  | .func n s args d sp ef fi ov pa oo fr np _ => .func n s args d sp ef fi ov pa oo fr np a
+  | .param s _ => .param s a
+  | .json j _ => .json j a
+  | .atTz f z i _ => .atTz f z i a
+  | t => t
+
+def stepT : Term → TCall → Except Str Term
+  | t, .as_ a => pure (Term.withAlias a t)
+  | .case ws e al, .when c v => pure (.case (ws ++ [(c, wrapConst false v)]) e al)
+  | .case ws _ al, .else_ v => pure (.case ws (some (wrapConst false v)) al)
+  | .func n s args d sp ef fi ov pa oo fr np al, .filter cs =>
+      pure (.func n s args d sp ef (some (cs.foldl (combine .and_) (fi.getD .empty))) ov pa oo fr np al)
+  | .func n s args d sp ef fi _ pa oo fr np al, .over ts => pure (.func n s args d sp ef fi true (pa ++ ts) oo fr np al)
+  | .func n s args d sp ef fi _ pa oo fr np al, .orderby ts order =>
+      pure (.func n s args d sp ef fi true pa (oo ++ ts.map (fun t => (t, order))) fr np al)
+  | .func n s args d sp ef fi ov pa oo fr np al, .frame kind lo hi =>
+      if fr.isSome then .error "AttributeError".toList
+      else pure (.func n s args d sp ef fi ov pa oo (some { kind := kind, lo := lo, hi := hi }) np al)
+  | .func n s args d _ ef fi ov pa oo fr np al, .ignoreNulls =>
+      pure (.func n s args d (some "IGNORE NULLS".toList) ef fi ov pa oo fr np al)
+  | .func n s args _ sp ef fi ov pa oo fr np al, .distinct => pure (.func n s args true sp ef fi ov pa oo fr np al)
+  | _, _ => .error "Unsupported".toList
+
 end Pypika.B
